@@ -203,7 +203,7 @@ func runDeny(t *testing.T) {
 	for _, opt := range optionNames {
 		for _, w := range denyWraps {
 			idx++
-			if !rec.Mine(idx) {
+			if !rec.Mine(idx) || rec.Violations() > 20 {
 				continue
 			}
 			in := univ.V{X: fixedInputs[idx%len(fixedInputs)]}
